@@ -442,7 +442,9 @@ class Consumer(object):
             self._processor_d.cancel()
         # Are we waiting to retry a request?
         if self._retry_call:
-            self._retry_call.cancel()
+            if self._retry_call.active():
+                self._retry_call.cancel()
+            self._retry_call = None
         # Are we waiting on a commit request?
         if self._commit_ds:
             while self._commit_ds:
@@ -450,9 +452,12 @@ class Consumer(object):
                 d.cancel()
         if self._commit_req:
             self._commit_req.cancel()
-        # Are we waiting to retry a commit?
+        # Are we waiting to retry a commit? (Don't keep the dead timer: the
+        # next stop() would cancel it again.)
         if self._commit_call:
-            self._commit_call.cancel()
+            if self._commit_call.active():
+                self._commit_call.cancel()
+            self._commit_call = None
         # Do we have an auto-commit looping call?
         if self._commit_looper is not None:
             self._commit_looper.stop()
